@@ -452,3 +452,9 @@ m("c10-falsy-exception-truth-test", "C10", "O10.8", (R + "asyncio_runner.py", " 
 m("revert-fix-C18-compose-node", "C18", "O18.9", (G + "core/config.py", "        if not special_key and node.tag not in self.yaml_constructors:\n            self.construct_undefined(node)\n", ""))
 m("c18-compose-node-keys-unchecked", "C18", "O18.9", (G + "core/config.py", "            and index is None\n            and node.tag in (\"tag:yaml.org,2002:merge\", \"tag:yaml.org,2002:value\")\n", "            and index is None\n"))
 n("c18-n-compose-node-guard-clause", "C18", (G + "core/config.py", "        if not special_key and node.tag not in self.yaml_constructors:\n            self.construct_undefined(node)\n        return node\n", "        if special_key or node.tag in self.yaml_constructors:\n            return node\n        self.construct_undefined(node)\n        return node\n"))
+# ---- third sweep (repaired files only): the repair of C01 half undone; the loader override that stops flattening merges
+m("c01-stopiteration-cause-dropped", "C01", "O1.14", (R + "thread_runner.py", "                error.__cause__ = failure\n", ""))
+m("c01-stopiteration-wrapper-unused", "C01", "O1.14", (R + "thread_runner.py", "                failure = error\n", "                pass\n"))
+m("c05-merge-no-longer-flattened", "C05", "O18.10", (G + "core/config.py", "        super().flatten_mapping(node)\n", "        pass\n"))
+m("c13-merge-no-longer-flattened", "C13", "O18.10", (G + "core/config.py", "        super().flatten_mapping(node)\n", "        pass\n"))
+m("c13-compose-node-returns-nothing", "C13", "O18.10", (G + "core/config.py", "            self.construct_undefined(node)\n        return node\n", "            self.construct_undefined(node)\n"))
